@@ -161,7 +161,7 @@ func (db *DB) writeLocked(batch, ourBatch *Batch, merge, sync bool) error {
 		return err
 	}
 	defer mdb.decref()
-	verifTrace(db.s, "w:leader", int64(batch.Len()), int64(batch.internalLen), verifB(merge), verifB(sync))
+	verifTrace(db.s, "w:leader", int64(batch.Len()), int64(batch.internalLen), verifB(merge), verifB(sync), verifBatchID(batch))
 
 	var (
 		overflow bool
@@ -190,7 +190,7 @@ func (db *DB) writeLocked(batch, ourBatch *Batch, merge, sync bool) error {
 				if incoming.batch != nil {
 					// Merge batch.
 					if incoming.batch.internalLen > mergeLimit {
-						verifTrace(db.s, "w:overflow", int64(incoming.batch.internalLen))
+						verifTrace(db.s, "w:overflow", int64(incoming.batch.internalLen), verifMergeID(&incoming))
 						overflow = true
 						break merge
 					}
@@ -200,7 +200,7 @@ func (db *DB) writeLocked(batch, ourBatch *Batch, merge, sync bool) error {
 					// Merge put.
 					internalLen := len(incoming.key) + len(incoming.value) + 8
 					if internalLen > mergeLimit {
-						verifTrace(db.s, "w:overflow", int64(internalLen))
+						verifTrace(db.s, "w:overflow", int64(internalLen), verifMergeID(&incoming))
 						overflow = true
 						break merge
 					}
@@ -216,7 +216,7 @@ func (db *DB) writeLocked(batch, ourBatch *Batch, merge, sync bool) error {
 				}
 				sync = sync || incoming.sync
 				merged++
-				verifTrace(db.s, "w:merge", int64(merged), verifB(incoming.sync))
+				verifTrace(db.s, "w:merge", int64(merged), verifB(incoming.sync), verifMergeID(&incoming))
 				db.writeMergedC <- true
 
 			default:
